@@ -280,7 +280,9 @@ pub fn run(ctx: &mut Ctx) {
         PackCase { mixed: false, name: "raw-file", comp: Comp::None, hint: Hint::No, open: "file" },
         PackCase { mixed: false, name: "zstd-file", comp: Comp::Zstd(3), hint: Hint::Yes, open: "file" },
         PackCase { mixed: false, name: "lz4-mem", comp: Comp::Lz4(3), hint: Hint::Yes, open: "mem" },
-        PackCase { name: "lzma-file", comp: Comp::Lzma(1), hint: Hint::Yes, open: "file" },
+        PackCase { mixed: false, name: "lzma-file", comp: Comp::Lzma(1), hint: Hint::Yes, open: "file" },
+        PackCase { mixed: true, name: "mixed-zstd-file", comp: Comp::Zstd(3), hint: Hint::Yes, open: "file" },
+        PackCase { mixed: true, name: "mixed-lz4-file", comp: Comp::Lz4(3), hint: Hint::Yes, open: "file" },
     ];
     let rounds = if ctx.quick() { 3 } else { 30 };
     let mut case: u64 = 0;
